@@ -164,6 +164,20 @@ CLAIMS = {
   note=NOTE_COMMON + "Assumption recorded in the evidence: the per-component loops are analysed for one generic component (their bodies only touch "
        "component j). If rk_kinetics is restructured so that stage formulas are no longer linear combinations of rk_moles the check "
        "exits 2 (analysis broken), never 0."),
+ "C17": dict(
+  technique="token-table/dispatch agreement + enum layout under bit masks + operator masks evaluated from enumerator values + operator/operation table + precedence call chain",
+  text=("Static structural analysis of the BASIC interpreter (PBasic.cpp). Decided: (a) every token the tokenizer can produce has a listtokens case and "
+        "exactly one consumer role (statement of exec, function of factor, operator level, syntactic token that some parser tests, or the error token "
+        "that reaches the snerr default), no spelling maps to two tokens; (b) every token used in a `1L << tok` mask has a value < 32 and the relational "
+        "tokens are six consecutive values in the order the range mask of relexpr relies on; (c) the operator masks, evaluated from the enumerator "
+        "values, are exactly: relational loop {=,<,>,<=,>=,<>}; in both the string and the numeric branch equal->{=,>=,<=}, less->{<,<=,<>}, "
+        "greater->{>,>=,<>}; term {*,/,MOD}; sexpr {+,-}; expr {OR,XOR}; (d) each operator branch applies the matching C++ operation (*=, guarded /=, "
+        "fmod, += / strcat, -=, exp(y log x), &, |, ^, unary - and ~); (e) the precedence chain expr>andexpr>relexpr>sexpr>term>upexpr>factor is "
+        "strict. Necessary conditions of 'standard arithmetic, string and control-flow semantics': a wrong mask, operator, precedence level or an "
+        "unhandled token yields a wrong value for some program. NOT decided: arithmetic/string results for all programs, error reporting for all "
+        "malformed programs."),
+  note=NOTE_COMMON + "Frozen table: c17_roles.json (seven syntactic tokens - each re-checked to be tested by some statement parser -, the error token, three tokens "
+       "with two legitimate roles). If the evaluator is re-architected so that the `k == tok...` / mask patterns vanish the check exits 2."),
 }
 
 NOT_APPLICABLE = {
